@@ -779,6 +779,21 @@ func zifaceOp(t []string) string {
 		target = new(int)
 	case "pstruct":
 		target = &ZImpl{}
+	case "slice":
+		target = []ZIfc{nil}
+	case "array":
+		target = [1]ZIfc{}
+	case "map":
+		target = map[string]ZIfc{"k": nil}
+	case "chan":
+		target = make(chan ZIfc, 1)
+	case "func":
+		target = func() ZIfc { return nil }
+	case "pptr":
+		pp := &iv
+		target = &pp
+	case "nilv":
+		target = nil
 	default:
 		return "bad-op"
 	}
@@ -845,6 +860,8 @@ func zgroup(g string) interface{} {
 type zseq struct {
 	lookup func() ExportedMocker
 	m      ExportedMocker
+	byName func(name string) // Struct(x).Method(name) / Interface(&i).Method(name), result discarded
+	setAs  func(ci, co string)
 	w      *When // the handle returned by the last When/Return/Returns/... call
 	via    bool  // route the next When/Return/Returns through the mocker (after a repeated lookup)
 }
@@ -854,6 +871,20 @@ func (q *zseq) step(st []string) {
 	case "again":
 		q.m, q.via = q.lookup(), true
 		return
+	case "lookup":
+		n := st[1]
+		if n == "-" {
+			n = ""
+		}
+		q.byName(n)
+		return
+	case "as":
+		q.setAs(st[1], st[2])
+		q.m = q.lookup()
+		return
+	case "applyval":
+		q.m.Apply(zvalue(st[1]))
+		q.w = nil
 	case "apply":
 		q.m.Apply(zcallback(ztoks(st[1]), ztoks(st[2]), st[3] == "1"))
 		q.w = nil
@@ -900,6 +931,16 @@ func (q *zseq) step(st []string) {
 	q.via = false
 }
 
+// zstubFor returns the stub value of the universe type t (what the behaviour calls pass).
+func zstubFor(t reflect.Type) reflect.Value {
+	for _, zt := range ztypes {
+		if zt.t == t {
+			return reflect.ValueOf(zt.stub).Convert(t)
+		}
+	}
+	return reflect.Zero(t)
+}
+
 // zseqOp runs the steps one configuration call at a time; the observation is about the LAST executed call (the first
 // rejected one, or the final one) relative to the state right before it.
 func zseqOp(form string, t []string) string {
@@ -914,7 +955,12 @@ func zseqOp(form string, t []string) string {
 		behave func() string
 		retry  func(c *Builder, cb interface{})
 		iv     ZIfc
+		meths  func() string
 	)
+	cont := strings.HasPrefix(form, "rt") // retry forms run every step, also after a rejection
+	if cont {
+		form = "seq" + form[2:]
+	}
 	snap0 := zsnap()
 	switch form {
 	case "seqf": // seqf <tgt> <ins> <outs> <var> <pre> <steps>
@@ -942,16 +988,62 @@ func zseqOp(form string, t []string) string {
 		fv, entry, steps = m.Func, m.Func.Pointer(), zsplit(t[4:])
 		rcv := &ZRcv{}
 		q.lookup = func() ExportedMocker { return b.Struct(rcv).Method(t[0]) }
+		q.byName = func(n string) { b.Struct(rcv).Method(n) }
 		retry = func(c *Builder, cb interface{}) { c.Struct(rcv).Method(t[0]).Apply(cb) }
-	case "seqi": // seqi <name> <mins> <mouts> <cbIns> <cbOuts> <steps>
-		im, ok := reflect.TypeOf((*ZIfc)(nil)).Elem().MethodByName(t[0])
+	case "seqi": // seqi <name> <all method names> <mins> <mouts> <cbIns> <cbOuts> <steps>
+		it := reflect.TypeOf((*ZIfc)(nil)).Elem()
+		im, ok := it.MethodByName(t[0])
+		namesTok := t[1]
+		var names []string
+		for i := 0; i < it.NumMethod(); i++ {
+			names = append(names, it.Method(i).Name)
+		}
+		t = append([]string{t[0]}, t[2:]...)
 		msig := zparseSig(t[1], t[2], "0")
-		if !ok || !zcheckSig(im.Type, msig) {
+		if !ok || !zcheckSig(im.Type, msig) || strings.Join(names, ",") != namesTok {
 			return "zoo-mismatch"
 		}
 		steps = zsplit(t[5:])
 		asFn := zcallback(ztoks(t[3]), ztoks(t[4]), false)
 		q.lookup = func() ExportedMocker { return b.Interface(&iv).Method(t[0]).As(asFn) }
+		q.byName = func(n string) { b.Interface(&iv).Method(n) }
+		q.setAs = func(ci, co string) { asFn = zcallback(ztoks(ci), ztoks(co), false) }
+		callM := func(name string) (res string) {
+			defer func() {
+				if r := recover(); r != nil {
+					msg := fmt.Sprint(r)
+					switch {
+					case strings.Contains(msg, "there is no suitable condition matched"):
+						res = "nomatch"
+					case strings.Contains(msg, "method not implements"):
+						res = "unimpl"
+					default:
+						res = "panic:" + vh.Class(msg)
+					}
+				}
+			}()
+			mv := reflect.ValueOf(&iv).Elem().MethodByName(name)
+			args := make([]reflect.Value, mv.Type().NumIn())
+			for i := range args {
+				args[i] = zstubFor(mv.Type().In(i))
+			}
+			zcbHits = 0
+			mv.Call(args)
+			if zcbHits > 0 {
+				return "cb"
+			}
+			return "stub"
+		}
+		meths = func() string {
+			if iv == nil {
+				return "nil"
+			}
+			var p []string
+			for _, n := range names {
+				p = append(p, n+":"+callM(n))
+			}
+			return strings.Join(p, ",")
+		}
 		behave = func() (res string) {
 			if iv == nil {
 				return "nil"
@@ -978,6 +1070,7 @@ func zseqOp(form string, t []string) string {
 	}
 	var res, before string
 	var snap []byte
+	var trail []string
 	last := 0
 	for i, st := range steps {
 		if i == 0 {
@@ -989,9 +1082,14 @@ func zseqOp(form string, t []string) string {
 		before, snap, last = behave(), zsnap(), i
 		st := st
 		res = zrun(func() { q.step(st) })
-		if !strings.HasPrefix(res, "ok") {
+		trail = append(trail, strings.Fields(res)[0])
+		if !strings.HasPrefix(res, "ok") && !cont {
 			break
 		}
+	}
+	where := fmt.Sprintf("step=%d", last)
+	if cont {
+		where = "trail=" + strings.Join(trail, ",")
 	}
 	d := zdiff(snap, entry, 0)
 	beh := behave()
@@ -1000,8 +1098,9 @@ func zseqOp(form string, t []string) string {
 		if iv != nil {
 			v = "set"
 		}
+		ms := meths()
 		b.Reset()
-		return fmt.Sprintf("%s step=%d before=%s beh=%s var=%s", res, last, before, beh, v)
+		return fmt.Sprintf("%s %s before=%s beh=%s var=%s meth=%s", res, where, before, beh, v, ms)
 	}
 	reg := patch.ZZC13Reg(entry)
 	b.Reset()
@@ -1027,7 +1126,7 @@ func zseqOp(form string, t []string) string {
 		}
 	}
 	patch.ZZC13UnpatchAll()
-	return fmt.Sprintf("%s step=%d before=%s diff=%s beh=%s reg=%s after=%s", res, last, before, d, beh, reg, after)
+	return fmt.Sprintf("%s %s before=%s diff=%s beh=%s reg=%s after=%s", res, where, before, d, beh, reg, after)
 }
 
 // TestVerifC13 interprets the operation stream.
@@ -1058,7 +1157,7 @@ func TestVerifC13(t *testing.T) {
 				obs = zexportOp(op.Toks[2:])
 			case "iface":
 				obs = zifaceOp(op.Toks[2:])
-			case "seqf", "seqm", "seqi":
+			case "seqf", "seqm", "seqi", "rtf", "rtm", "rti":
 				zloose = true
 				obs = zseqOp(op.Toks[1], op.Toks[2:])
 				zloose = false
